@@ -1,7 +1,7 @@
 SPECIFICATION Spec
 CONSTANTS
   SIZE = 8
-  RLEN = 3
+  RLENS = {1, 3}
   NREC = 3
   WINDOW = 3
   EMIT = TRUE
